@@ -12,9 +12,12 @@ def sh(c, cwd=None):
     p = subprocess.run(c, shell=True, cwd=cwd, capture_output=True, text=True)
     return p.returncode, (p.stdout + p.stderr)
 rc1, o1 = sh(cmd)
-sh("git stash", cwd=wt)
+r0, _ = sh(f"git apply -R {src}/patch.diff", cwd=wt)
 rc2, o2 = sh(cmd)
-sh("git stash pop", cwd=wt)
+sh(f"git apply {src}/patch.diff", cwd=wt)
+ran = sum(int(x) for x in re.findall(r"test result: ok\. (\d+) passed", o2))
+if r0 != 0 or ("test result" in o2 and ran == 0):
+    print("could not revert the change or the demo ran no test without it", r0, ran); rc2 = 99
 print("demo with change: exit", rc1, "| without change: exit", rc2)
 conf = dict(demo_with_change_exit=rc1, demo_without_change_exit=rc2)
 if not (rc1 != 0 and rc2 == 0):
